@@ -1,6 +1,7 @@
 package checks
 
 import (
+	"unicode/utf8"
 	"fmt"
 	"strings"
 
@@ -189,6 +190,20 @@ func c17StreamRaw(t *fw.T, shard, nshards int, emit func(*fw.Case)) {
 	enumerate(c17Alphabet, maxLen, func(s string) {
 		n++
 		if n%nshards != shard {
+			emit(nil)
+			return
+		}
+		emit(mkC17("raw", c17Hosts[n%len(c17Hosts)], s))
+	})
+	// a backslash in front of bytes that are not characters of their own (UTF-8 continuation and lead bytes, 0xFF):
+	// rejected at that byte like any other wrong escape
+	enumerate([]string{"\\", "a", "\xa9", "\xc3", "\xff", "\x80", "é"}, 4, func(s string) {
+		n++
+		if n%nshards != shard {
+			emit(nil)
+			return
+		}
+		if _, why, _ := rawPredict(s); why != "bad-escape" || utf8.ValidString(s) {
 			emit(nil)
 			return
 		}
@@ -457,6 +472,24 @@ func c17EvalTemplate(t *fw.T, c *fw.Case) {
 		}
 		t.Violation("bare-vs-quoted-directive:"+tp[1], fmt.Sprintf("parameter %q means something else in quotes: bare %s | quoted %s\n--- quoted document\n%s", tp[1], describe(ob), describe(oq), quoted))
 		return
+	}
+	// the blanks between the keyword (or the previous parameter) and the parameter are separators, whatever their kind
+	// and number: the value is the same
+	if at := strings.Index(tp[0], "%s"); at > 0 && tp[0][at-1] == ' ' {
+		for _, sep := range []string{"\t", "  ", " \t", "\t\t", "\t ", " \t \t"} {
+			for _, val := range []string{tp[1], "\"" + tp[1] + "\""} {
+				doc := tp[0][:at-1] + sep + val + tp[0][at+2:]
+				d := run.Single([]byte(doc))
+				d.FixedSeed = true
+				o := t.Exec(d)
+				t.Count("separator_variants_checked")
+				if o.Outcome != ob.Outcome || string(o.JSON) != string(ob.JSON) {
+					c.Docs = []run.Doc{db, d}
+					t.Violation("separator-changes-value:"+strings.NewReplacer(" ", "S", "\t", "T").Replace(sep), fmt.Sprintf("parameter %s after the blanks %q is read differently: one blank %s | these blanks %s\n--- document\n%s", val, sep, describe(ob), describe(o), doc))
+					return
+				}
+			}
+		}
 	}
 	t.Distinct("template " + tp[0][:min(len(tp[0]), 40)] + tp[1])
 }
